@@ -1025,3 +1025,12 @@ M("C07-benign-enum-reassociation-order", "C07", "src/cppparser/cppEnumType.cxx",
   "    } else if (_last_value->_type == CPPExpression::T_binary_operation &&\n               _last_value->_u._op._operator == '+' &&\n               _last_value->_u._op._op2->_type == CPPExpression::T_integer) {",
   "    } else if (_last_value->_type == CPPExpression::T_binary_operation &&\n               _last_value->_u._op._op2->_type == CPPExpression::T_integer &&\n               '+' == _last_value->_u._op._operator) {",
   benign=True)
+
+MUTANTS.append({"id": "C17-register-while-parsing", "prop": "C17", "benign": False,
+  "expect": "R17.5|",
+  "edits": [("src/interrogate/interrogate.cxx", "    parser._explicit_files.insert(filename);\n  }\n\n  // Now go through them again and feed them into the C++ parser.\n  for (i = 1; i < argc; ++i) {\n    Filename filename = Filename::from_os_specific(argv[i]);\n",
+             "    parser._explicit_files.insert(filename);\n\n    filename = Filename::from_os_specific(argv[i]);\n")]})
+M("C17-benign-register-loop-while", "C17", "src/interrogate/interrogate.cxx",
+  "  for (i = 1; i < argc; ++i) {\n    Filename filename = Filename::from_os_specific(argv[i]);\n    filename.make_canonical();\n    parser._explicit_files.insert(filename);\n  }",
+  "  i = 1;\n  while (i < argc) {\n    Filename filename = Filename::from_os_specific(argv[i]);\n    filename.make_canonical();\n    parser._explicit_files.insert(filename);\n    ++i;\n  }",
+  benign=True)
